@@ -215,10 +215,15 @@ fn handle_diagnostics(
         match project {
             Some(set) => {
                 for file_id in unique_files {
-                    if let Some(content) = set.get(file_id) {
-                        let id = files.add(file_id.to_string(), content.as_string());
-                        files_to_ids.insert(file_id, id);
-                    }
+                    // A diagnostic can name a file that is not part of the
+                    // project (a path that cannot be read, or no file at all
+                    // when the set is empty). It must still be reported.
+                    let content = match set.get(file_id) {
+                        Some(content) => content.as_string(),
+                        None => empty_source,
+                    };
+                    let id = files.add(file_id.to_string(), content);
+                    files_to_ids.insert(file_id, id);
                 }
             }
             None => {
